@@ -48,7 +48,8 @@ def setup():
 
 def evaluate(eng, prop, cases, impl, model, spec, proj="default"):
     """Compare the three record streams per case.  Returns findings (judge first)."""
-    if proj == "default":
+    is_default = proj == "default"
+    if is_default:
         proj = eng.projector(prop)
     findings = []
     for c, ir, mr, sr in zip(cases, impl, model, spec):
@@ -71,7 +72,9 @@ def evaluate(eng, prop, cases, impl, model, spec, proj="default"):
             findings.append(Finding(c, "judge", j[0], j[1], ir, mr, sr, name=eng.spec_name(prop)))
             continue
         if mr is not None:
-            d = core.first_diff(ir, mr, proj)
+            cproj = eng.case_projector(prop, c) if (is_default and hasattr(eng, "case_projector")) else (
+                proj.for_case(c) if hasattr(proj, "for_case") else proj)
+            d = core.first_diff(ir, mr, cproj)
             if d is None and len(ir) != n_ops:
                 d = min(len(ir), n_ops)
             if d is not None:
